@@ -72,12 +72,12 @@ Step(a) ==
   /\ allLegal' = IF over THEN allLegal ELSE allLegal /\ lg
   /\ over' = (over \/ dn)
 
-Next == \E a \in Actions : Step(a)
-NextLegal == \E a \in Actions : Legal(s, a) /\ Step(a)       \* mask-respecting play only
+InBound == s.step_count < NB + Extra         \* states at the bound are checked but not expanded
+Next == InBound /\ \E a \in Actions : Step(a)
+NextLegal == InBound /\ \E a \in Actions : Legal(s, a) /\ Step(a)       \* mask-respecting play only
 Spec == Init /\ [][Next]_vars
 SpecLegal == Init /\ [][NextLegal]_vars
-
-Bounded == s.step_count <= NB + Extra
+SpecInstances == Init /\ [][FALSE]_vars                    \* the instances only (generator-level checks)
 
 TypeOK ==
   /\ Len(s.grid) = GR /\ \A r \in 1..GR : Len(s.grid[r]) = GC /\ \A c \in 1..GC : s.grid[r][c] \in 0..NB
